@@ -68,3 +68,10 @@ META["C20"] = dict(
     text="Theorems C20_all_in_order, C20_stop, C20_iteration: when no component stops all components' events appear once each in the given order (setup and every iteration); the first component that stops (FailNow/panic) ends that setup/iteration after its own prefix, later components do not run, and it is reported failed; the combined iteration's outcome is the disjunction of the components' classifications and each iteration starts from all components again.",
     note="Trusted: Coq kernel; the model represents 'same handle' by threading one handle through the concatenated bodies (pointer identity is checked by the harness); extraction + driver; harness.",
 )
+
+META["C16"] = dict(
+    design_ref="DESIGN.md section 5, C16",
+    technique="Coq proofs: permutation lemma for the sorted-key/value pairing (any label map, any insertion order), counting lemma for Observe by induction over outcomes, last-run lemma for Reset; exact differential of Registry.Gather() against the extracted model for component-level and whole-run histories",
+    text="Theorems C16_pairing, C16_series_labels, C16_no_mixing, C16_counts, C16_setup_failure, C16_disabled: for every static-label map the label names/values of every series pair each key with its own value; after any earlier runs the metrics are those of the last run alone; the iteration family holds per result label exactly the recorded number of samples and the setup family one sample labelled with the setup outcome; nothing is recorded for iterations when iteration metrics are off. Gather() of the real registry is compared exactly with the model.",
+    note="Trusted: Coq kernel; Prometheus SummaryVec semantics (WithLabelValues positional pairing, Reset, Observe) as modelled; extraction + driver; harness.",
+)
